@@ -28,7 +28,7 @@ RULE = (
 EXHAUSTIVE_PART = "per base configuration: all fault points of the classes body-exception, unserializable, unencodable, k-th filesystem call and LINE failpoints in the loading half and in the save sequence"
 ASSUMPTIONS = ["faults occur only at the enumerated points", "MemoryFS/NativeOSFS subclasses behave like their parents"]
 MONITORS = ["fault_free_control", "body_exception", "unserializable", "unencodable", "fs_call_fault", "line_failpoint", "line_failpoint_loading"]
-REQUIRED = ["noop_body_with_backup_requested", "body_Chained", "stale_backup_of_same_size_present", "output_is_input_under_another_spelling", "body_UnicodeEncodeError", "backup_after_inplace_chart_edit", "body_KeyboardInterrupt", "body_SystemExit", "body_CancelMutation", "body_StopIteration", "body_GeneratorExit",
+REQUIRED = ["noop_body_with_backup_requested", "body_Chained", "stale_backup_of_same_size_present", "output_is_input_under_another_spelling", "body_UnicodeEncodeError", "backup_after_inplace_chart_edit", "body_KeyboardInterrupt", "body_SystemExit", "body_CancelMutation", "body_CancelSub", "codec_error_handler_given_by_the_caller", "body_StopIteration", "body_GeneratorExit",
             "unencodable_utf-8", "unencodable_cp1252", "unencodable_cp932", "unencodable_cp949", "fault_open_w_backup",
             "unencodable_object_in_key", "unencodable_object_in_chartkey", "unencodable_object_in_extradata", "unencodable_object_in_notes",
             "fault_open_w_output", "fault_write_backup", "fault_write_output", "fault_close", "partial_write",
@@ -72,9 +72,13 @@ def cases(ctx):
     # a body without any net change, with a backup requested, saving in place and to another file
     configs = configs + [dict(c, body="noop") for c in configs if c["backup"] and c["size"] == 5 and c["enc"] in ("utf-8", "cp932")
                          and c["output"] in (False, True)]
+    # the caller's own error handler for the codec (errors='replace' is passed through to every open): text that only
+    # encodes thanks to it must still never cost the input file
+    configs = configs + [dict(c, errors="replace") for c in configs if c["size"] == 5 and c["enc"] in ("cp1252", "cp932")
+                         and c["output"] in (False, True) and "body" not in c]
     for i, c in enumerate(configs):
         if ctx.mine(i):
-            yield {"base": c, "failpoints": True, "deep": ctx.tier == "thorough"}
+            yield {"base": c, "failpoints": "errors" not in c, "deep": ctx.tier == "thorough"}
     ctx.exhaustive = True
 
 
@@ -132,10 +136,10 @@ def apply_body(s, op, ext):
 def enumerate_faults(base, n_props, n_charts, control_trace, line_events, line0_events=0, deep=True):
     faults = []
     script = body_script(base["ext"])
-    for exc in ("ValueError", "KeyError", "Custom", "StopIteration", "KeyboardInterrupt", "SystemExit", "GeneratorExit", "CancelMutation",
+    for exc in ("ValueError", "KeyError", "Custom", "StopIteration", "KeyboardInterrupt", "SystemExit", "GeneratorExit", "CancelMutation", "CancelSub",
                 "UnicodeEncodeError", "UnicodeDecodeError", "OSError", "AttributeError", "RuntimeError", "Chained", "InExcept"):
         for p in range(len(script) + 1):
-            if not deep and exc not in ("ValueError", "KeyboardInterrupt", "CancelMutation") and p not in (0, 3, len(script)):
+            if not deep and exc not in ("ValueError", "KeyboardInterrupt", "CancelMutation", "CancelSub") and p not in (0, 3, len(script)):
                 continue  # quick tier: every position for three classes, first / middle / last for the others
             faults.append({"class": "body", "exc": exc, "pos": p})
     for kind in ("int", "badreplace", "unencodable"):
@@ -222,7 +226,8 @@ def run(base, fault, want_lines=False):
         try:
             if fp0:
                 fp0.arm()
-            with simfile.mutate(inp, output_filename=out, backup_filename=bak, try_encodings=tried, filesystem=world.fs) as s:
+            ekw = {"errors": base["errors"]} if base.get("errors") else {}
+            with simfile.mutate(inp, output_filename=out, backup_filename=bak, try_encodings=tried, filesystem=world.fs, **ekw) as s:
                 if fp0:
                     lines0 = fp0.disarm()
                 snaps["S0"] = copy.deepcopy(s)
@@ -296,6 +301,7 @@ def make_exc(name):
     return {"ValueError": ValueError("boom"), "KeyError": KeyError("boom"), "Custom": Custom("boom"),
             "StopIteration": StopIteration("boom"), "KeyboardInterrupt": KeyboardInterrupt(), "SystemExit": SystemExit(3),
             "GeneratorExit": GeneratorExit(), "CancelMutation": simfile.CancelMutation(),
+            "CancelSub": type("SkipThisSong", (simfile.CancelMutation,), {})("a caller's own subclass of CancelMutation"),
             "UnicodeEncodeError": UnicodeEncodeError("ascii", "caf\u00e9", 3, 4, "ordinal not in range(128)"),
             "UnicodeDecodeError": UnicodeDecodeError("utf-8", b"\xff", 0, 1, "invalid start byte"),
             "OSError": OSError(28, "No space left on device"), "AttributeError": AttributeError("boom"),
@@ -436,8 +442,8 @@ def judge(ctx, base, fault, r, cls, one):
         ctx.feat("body_" + fault["exc"])
         ctx.expect(not changed, "body-exception:files-changed", **detail)
         ctx.expect(not writes, "body-exception:write-events", **detail)
-        if fault["exc"] == "CancelMutation":
-            ctx.expect(r["raised"] is None, "body-exception:CancelMutation-not-swallowed", **detail)
+        if fault["exc"] in ("CancelMutation", "CancelSub"):
+            ctx.expect(r["raised"] is None, f"body-exception:{fault['exc']}-not-swallowed", **detail)
         else:
             e = r["raised"]
             same = e is r["thrown"] and r.get("thrown_args") is not None and e.args == r["thrown_args"][0] \
@@ -458,6 +464,8 @@ def judge(ctx, base, fault, r, cls, one):
         ctx.mon("unencodable" if fc == "unencodable" else "unserializable")
         if fault["where"] in ("key", "chartkey", "extradata", "notes") and r["raised"] is not None:
             ctx.feat(f"{'unencodable' if fc == 'unencodable' else 'unserializable'}_object_in_{fault['where']}")
+        if base.get("errors"):
+            ctx.feat("codec_error_handler_given_by_the_caller")
         if fc == "unencodable":
             ctx.feat("unencodable_" + r["enc"])
             if fault.get("lone") and not base["output"]:
